@@ -8,7 +8,7 @@ PID = "C16"
 MODULE = "Check.C16"
 VERDICT = "verdict_C16 [] []"
 CLASS_BITS = {}
-NCASES = (80, 3000)
+NCASES = (200, 3000)
 shrinkable = True
 RULE = ("generator G (gen/graphgen.py): 2-6 fixture names, each defined 1-3 times over up to three conftest levels, a test "
         "module and an unrelated branch, random dependency edges incl. self-named parameters (override with a parent, true "
